@@ -21,6 +21,12 @@ CHECKS = {
  "C08": ("exploration", "differential run-time monitor: limited run vs unlimited run of the same engine",
          "held on every generated (program, N) of the run apart from the listed known findings: |R| = min(N,|A|) and R is a subset of A",
          "trusted: the unlimited run of the same configuration", "3/C08"),
+ "C31": ("exploration", "law-checking run-time monitor: exhaustive triples over a representative value domain + random tuples + consolidation vs multiset model",
+         "held for all ordered triples of the 54-value domain (every kind, float/vector edge values) and on the random tuples / update lists of the run: cmp-Equal iff ==, == implies equal hash, antisymmetry, transitivity; sort+dedup and consolidate agree with an Eq/Hash multiset",
+         "trusted: std HashMap as equality model; the domain is finite and listed in harness/src/props/c31.rs", "3/C31"),
+ "C36": ("exploration", "model-based run-time monitor: bloom no-false-negative check and hash index vs multiset model after every step",
+         "held on every generated key set / index history of the run: inserted keys always test positive; get/get_with_bloom/probe return exactly the model's tuples per key; counts match",
+         "trusted: HashMap multiset model keyed by Value's Eq/Hash", "3/C36"),
 }
 NOT_YET = "monitor not built yet in this round (design in DESIGN.md section 3); not claimed until a check exists"
 
@@ -65,6 +71,6 @@ def main():
     print(len(checks), "claimed;", len(na), "not claimed")
 
 NA = {}
-HOOK_COMMITS = []
+HOOK_COMMITS = ["bd301f9"]
 if __name__ == '__main__':
     main()
